@@ -130,16 +130,27 @@ static long hdr_size(const std::map<std::string, std::string>& m) { long v = 0; 
 static std::string wire_check(S& s) {
     // serialize the object alone and parse it back with its own class
     if (needs_environment(*s.o)) static_cast<IP&>(*s.o).src_addr("10.9.8.7");
+    // serialization may rewrite derived fields inside the object (lengths, tags, the RFC 4884 length octet that aliases ICMP id/gateway):
+    // serialize a clone so that the explored object keeps exactly what the API calls put into it
+    std::unique_ptr<PDU> ser_copy(s.o->clone());
     // outside what the wire format can represent: TCP / IP headers longer than 60 bytes (4-bit length fields)
     if ((g_cls == "TCP" || g_cls == "IP") && s.o->header_size() > 60) { R.count("states_beyond_wire_limits"); return ""; }
     Bytes y;
-    try { y = s.o->serialize(); }
+    try { y = ser_copy->serialize(); }
     catch (std::exception& e) { return std::string("wire:serialize-throws:") + g_cls + "|" + typeid(e).name() + " " + e.what(); }
     std::unique_ptr<PDU> q;
     try { q.reset(g_parse(y.data(), (uint32_t)y.size())); }
     catch (malformed_packet&) { return "wire:own-serialization-rejected:" + g_cls + "|" + hex(y).substr(0, 300); }
     auto a = snapshot(*s.o), b = snapshot(*q);
+    bool icmp_err = a.count("ICMP.type") && (a["ICMP.type"] == "3" || a["ICMP.type"] == "11" || a["ICMP.type"] == "12");
+    bool icmp6_err = a.count("ICMPv6.type") && (a["ICMPv6.type"] == "1" || a["ICMPv6.type"] == "3");
     for (auto& kv : a) {
+        // RFC 4884: for error messages the length octet is derived; getters aliasing it are views of a derived field (as in C03)
+        if (icmp_err && (kv.first == "ICMP.gateway" || kv.first == "ICMP.id")) continue;
+        // MLDv2 report: the number of records is derived and lives in the octets 'sequence' / 'router_lifetime' alias
+        if (a.count("ICMPv6.type") && a["ICMPv6.type"] == "143" && (kv.first == "ICMPv6.sequence" || kv.first == "ICMPv6.router_lifetime")) continue;
+        if (icmp6_err && (kv.first == "ICMPv6.identifier" || kv.first == "ICMPv6.hop_limit" || kv.first == "ICMPv6.router" || kv.first == "ICMPv6.solicited" ||
+                          kv.first == "ICMPv6.override" || kv.first == "ICMPv6.maximum_response_code")) continue;
         if (always_derived(kv.first) || protocol_tag(kv.first) || size_key(kv.first) || type_dependent(kv.first) || kv.first == "BootP.vend" || kv.first == "Dot1Q.append_padding") continue;
         if (g_cls == "ICMPv6" && !g_applicable.count("ICMPv6.options") && b[kv.first].find("option_not_found") != std::string::npos) continue;   // this message type has no option area
         if (kv.first == "ICMPv6.multicast_address_records" && strip_aux(kv.second) == strip_aux(b[kv.first])) continue;   // aux data is counted in 32-bit words
@@ -331,9 +342,16 @@ int main(int argc, char** argv) {
     return run_main(argc, argv, NJ, NJ,
         [&](int job) {
             auto cs = classes();
-            int depth = A.thorough() ? 3 : 2;
-            if (A.thorough()) { g_kmax[1] = 3; g_kmax[2] = 2; }
-            for (size_t i = job; i < cs.size(); i += NJ) { run_class(cs[i], (int)i, depth); if (deadline_reached()) { R.flags["exhaustive"] = false; break; } }
+            for (size_t i = job; i < cs.size(); i += NJ) {
+                // quick: depth 2 (all samples, then 2). thorough: small classes depth 3 (all, 2, 1); classes with many setters depth 2 (all, 4)
+                int depth = 2; g_kmax[0] = 1000; g_kmax[1] = 2; g_kmax[2] = 1;
+                if (A.thorough()) {
+                    std::unique_ptr<PDU> probe(cs[i].make());
+                    size_t nset = 0;
+                    if (probe) for (auto& sd : setter_table()) if (sd.applies(*probe)) ++nset;
+                    if (nset <= 24) depth = 3; else g_kmax[1] = 4;
+                }
+                run_class(cs[i], (int)i, depth); if (deadline_reached()) { R.flags["exhaustive"] = false; break; } }
         },
         [&](const std::string& kase) -> int {
             auto kv = parse_kv(kase);
@@ -341,7 +359,7 @@ int main(int argc, char** argv) {
             size_t vi = (size_t)atoi(kv["variant"].c_str());
             if (vi < cs.size()) { const ClassCfg& c = cs[vi];
                 std::string err, ops = kv["ops"];
-                g_kmax[1] = 3; g_kmax[2] = 2;
+                g_kmax[1] = 4; g_kmax[2] = 2;
                 run_class(c, (int)vi, atoi(kv["depth"].c_str()), &ops, &err);
                 if (!err.empty()) { printf("violation reproduced: %s\n", err.c_str()); return 1; }
                 printf("history replayed, all invariants hold\n");
